@@ -393,6 +393,33 @@ package gnet
 //@          (forall j :: 0 <= j && j < len(data$0) - len(data) ==> aat(c, old(acc(c)) + j) == old(data$0[j]))
 //@     modifies spos[c.fd], sdata[c.fd]
 //
+// conn.writev: same as write for a vector of segments. Proved here: memory safety, the descriptor is only used while the
+// connection is open and with at most IOV_MAX segments, the invariants and the accepted prefix are preserved, failures
+// close the connection. That the accepted stream grows by exactly the concatenation of the segments is not proved
+// (sums over [][]byte that the function rewrites in place): covered by the bounded stand-in bounded/conn_writev_test.go.
+//@ func (c *conn) writev(bs [][]byte) (n int, err error)
+//@   requires c != nil && c.loop != nil && elwf(c.loop)
+//@   requires (c.opened ==> CI(c)) && (!c.opened ==> CZ(c))
+//@   arith unchecked byte counts stay far below 2^63
+//@   modifies-all-except eventloop, engine, Options, netpoll.Poller, listener, map[int]*listener, ghost:kdata, ghost:kpos, ghost:nopen
+//@   ensures c.loop == old(c.loop) && c.fd == old(c.fd) && elwf(c.loop)
+//@   ensures c.opened ==> old(c.opened) && CI(c) && c.cons == old(c.cons) && acc(c) >= old(acc(c))
+//@   ensures c.opened ==> forall i :: 0 <= i && i < old(acc(c)) ==> aat(c, i) == old(aat(c, i))
+//@   ensures !c.opened ==> CZ(c)
+//@   ensures old(c.opened) && !c.opened ==> err != nil && c.phase == 2 && nclose[c] == 1 && owner[c.fd] == nil && reg(c.loop.connections, c.fd) != c
+//@   ensures !old(c.opened) ==> err != nil && n == 0
+//@   loop 1:
+//@     invariant c == c$0 && 0 <= rangeindex + 1 && rangeindex + 1 <= len(bs$0) && same(bs, bs$0)
+//@     modifies nothing
+//@   loop 2:
+//@     invariant c == c$0 && c.loop == old(c.loop) && c.fd == old(c.fd) && elwf(c.loop) && c.opened && CI(c) && ocnt(c) == 0 && c.cons == old(c.cons) &&
+//@          isET == isET(c.loop) && acc(c) >= old(acc(c)) && (forall i :: 0 <= i && i < old(acc(c)) ==> aat(c, i) == old(aat(c, i))) &&
+//@          arr(bs) == arr(bs$0) && off(bs) >= off(bs$0) && off(bs) + len(bs) <= off(bs$0) + len(bs$0)
+//@     modifies spos[c.fd], sdata[c.fd], mem(bs$0)
+//@   loop 3:
+//@     invariant c == c$0 && sent >= 0 && 0 <= rangeindex#2 + 1 && rangeindex#2 + 1 <= len(bs) && pos == len(bs)
+//@     modifies nothing
+//
 // read: one readable event. Every byte read(2) delivers is offered to OnTraffic as part of the readable view, in stream
 // order; what the handler leaves unconsumed moves behind the older ring content; EAGAIN changes nothing; any other failure
 // or EOF closes the connection with a non-nil error.
